@@ -373,7 +373,7 @@ class TT():
         Returns:
             numpy.array: the full tensor in numpy.
         """
-        return self.full().cpu().resolve_conj().numpy()
+        return self.full().cpu().resolve_conj().resolve_neg().numpy()
 
     def __repr__(self):
         """
